@@ -62,7 +62,7 @@ def opsC14 : Handler := fun st fields =>
     | none => none
     | some (rd, c) =>
       match rd with
-      | some (.sym s p b) =>
+      | some (.sym s _ _) =>
         match Names.lookupUnitSymbol c.pre c.lut s with
         | some e => some (st, s!"ok\t{readingOut rd}\t{bitsStr e.scale}\t{bitsStr e.offset}\t{e.dim.str}")
         | none => some (st, s!"ok\t{readingOut rd}\tnone")
